@@ -225,8 +225,9 @@ def rename (u : Int) (dvars : List (String × String)) : M Int := tryToReorder d
   let (r, _) ← copyBddF none lm (m.nvars + 2) u {}
   return r
 
-/-- `copy_bdd(u, from_bdd, to_bdd)` (different managers), run in the target -/
-def copyBdd (src : Tbl) (u : Int) : M Int := do
+/-- `copy_bdd(u, from_bdd, to_bdd)` (different managers), run in the target;
+the body `_copy_bdd_to` is decorated with `_try_to_reorder` on the target -/
+def copyBdd (src : Tbl) (u : Int) : M Int := tryToReorder do
   let m ← M.get
   let lm := src.vars.toList.filterMap fun (var, l) =>
     match m.tbl.vars[var]? with
